@@ -43,7 +43,7 @@ CHECKS = {
     "C15": {
         "runs": [dict(pkg="./pkg/chart/v2/util", files=["pkg/chart/v2/util/h_c15_roundtrip.go"], entries=["H15RoundTrip", "H15Name", "H15Tree"], bounds_quick={"bodylen": 3, "namelen": 1}, bounds_thorough={"bodylen": 4, "namelen": 2}),
                  dict(pkg="./pkg/ignore", files=["pkg/ignore/h_c15_ignore.go"], entries=["H15Ignore", "H15IgnoreFile"], bounds_quick={"linelen": 3, "pathlen": 3}, bounds_thorough={"linelen": 4, "pathlen": 4}),
-                 dict(pkg="./pkg/chart/v2/loader", files=["pkg/chart/v2/loader/h_c15_dir.go"], entries=["H15Dir", "H15DirBytes"], bounds_quick={"linelen": 3, "taillen": 1}, bounds_thorough={"linelen": 4, "taillen": 2}, limits={"max_decisions": 4000})],
+                 dict(pkg="./pkg/chart/v2/loader", files=["pkg/chart/v2/loader/h_c15_dir.go"], entries=["H15Dir", "H15DirBytes"], bounds_quick={"linelen": 3, "taillen": 1}, bounds_thorough={"linelen": 4, "taillen": 1}, limits={"max_decisions": 4000})],
         "bounds": {}, "assumptions": [],
     },
     "C16": {
@@ -95,7 +95,7 @@ CHECKS = {
     },
     "C12": {
         "runs": [dict(ACTION, entries=["H12Exec", "H12Gate"], bounds_quick={"hooks": 2, "faults": 1}, bounds_thorough={"hooks": 3, "faults": 1}, limits={"max_instrs": 20000000, "max_decisions": 2000}),
-                 dict(pkg="./pkg/release/util", files=["pkg/release/util/h_c12_weight.go", "pkg/release/util/h_c08_part.go"], entries=["H12Weight", "H12Policies"], bounds_quick={"maxweight": 9999, "policies": 3}, bounds_thorough={"maxweight": 99999, "policies": 4})],
+                 dict(pkg="./pkg/release/util", files=["pkg/release/util/h_c12_weight.go", "pkg/release/util/h_c08_part.go"], entries=["H12Weight", "H12Policies"], bounds_quick={"maxweight": 9999, "policies": 3}, bounds_thorough={"maxweight": 99999, "policies": 3})],
         "bounds": {}, "assumptions": [],
     },
     "C07": {
